@@ -156,7 +156,8 @@ def check(pm: ProgramModel, ctx: Ctx) -> None:
     # attribute value types ----------------------------------------------------------------------------------
     for key, val, typ, lit in (("bool", True, "boolean", "true"), ("int", 7, "integer", "7"),
                                ("float", 2.5, "double", "2.5"), ("str", "hi", "string", '"hi"'),
-                               ("false", False, "boolean", "false")):
+                               ("false", False, "boolean", "false"), ("float-integral", 6.0, "double", "6.0"),
+                               ("int-zero", 0, "integer", "0"), ("numeric-string", "10", "string", '"10"')):
         root = mb.feature("Root")
         a = mb.feature("A")
         mb.relation(root, [a], 1, 1)
